@@ -953,6 +953,12 @@ def part_exit_code(ctx, out):
                 out.violations.append(dict(what='doit %s exited with %s, expected %s' % (' '.join(argv), rc, want),
                                            shape='exit-code-3', case=dict(argv=argv)))
     finally:
+        # `list` never closes its dependency manager (doit.Globals.dep_manager keeps it): drop it while its directory
+        # still exists, as the end of the doit process would, or dbm.dumb's __del__ writes at interpreter exit
+        import gc
+        import doit.globals
+        doit.globals.Globals.dep_manager = None
+        gc.collect()
         os.chdir(cwd)
     out.extra['exit_code_runs_exercised_only'] = n
 
